@@ -204,6 +204,11 @@ def evaluate(ctx, scn):
         ev.counters["ref_incomplete"] += 1
         return ev
     clean = scn.get("regime", "clean") == "clean"
+    sk = scn.get("spend_kind")
+    if sk and not sk.startswith("nosig-") and scn.get("spend") and "dataset" not in scn["spend"]:
+        # the harness's own signer is workload, not oracle: count how its spends end, so that a signer that
+        # went wrong (sessions failing at the first signature check) shows in the evidence
+        ev.counters["probe:signed_spend_ran_%s" % ("valid" if (ref.finished and not ref.fail) else "to_an_error")] += 1
     items = plan(scn, ref)
     w = session.build_world(scn, sched=items)
     run = ctx.run(w)
